@@ -115,6 +115,11 @@ def run_scenario(sc, pause=None, keep=False, every_event=None, runtime=None):
             tr.exc_sig = f"{type(e).__name__}@{T.repo_frame(e)}"
             tr.exc_msg = str(e)[:200]
         tr.final_now = env.now
+        T.CURRENT = tr
+        try:
+            tr.final_queries()
+        finally:
+            T.CURRENT = None
         return tr
     finally:
         T.CURRENT = None
